@@ -122,7 +122,11 @@ pub mod fallback {
     // Returns the least non-negative remainder of `x` (mod `m`).
     #[inline]
     pub fn rem_euclid(x: f32, m: f32) -> f32 {
-        x % m + (x.is_sign_negative() as u32 as f32) * m
+        // The remainder has the sign of `x`. Only add `m` if it is really
+        // negative: for an exact negative multiple of `m` (or -0.0) the
+        // result is zero, not `m`
+        let r = x % m;
+        if r < 0.0 { r + m } else { r }
     }
     /// Returns the approximate reciprocal of the square root of `x`.
     #[inline]
